@@ -652,6 +652,10 @@ def adjust(pid, rng, cfg):
             if "..." not in spec and "=" in spec:
                 core_ = spec.split("=", 1)[1]
                 cfg.adapters = cfg.adapters + ((flag, "ad1=" + core_), (flag if rng.random() < 0.5 else "-b", "ad2=" + core_.lstrip("^X").rstrip("$X").split(";")[0]))
+    if pid == "C09" and no_index_possible(cfg.adapters) and rng.random() < 0.5:
+        # "no index is involved" also when indexing is allowed but no index can be built (at most one anchored 5' and one
+        # anchored 3' adapter): run those without --no-index, the adapter order given must still decide ties
+        cfg.index = True
     if pid == "C16" and cfg.adapters:
         cfg.revcomp = True
         if rng.random() < 0.4:
@@ -663,12 +667,56 @@ def adjust(pid, rng, cfg):
         cfg.prefix = cfg.suffix = ""
     if pid == "C11":
         if rng.random() < 0.35 and not cfg.fasta:
-            cfg.max_ee = rng.choice([0.5, 1.0, 2.5])
+            cfg.max_ee = rng.choice([0.0, 0.5, 1.0, 2.5])
         if rng.random() < 0.3 and not cfg.fasta:
-            cfg.max_aer = rng.choice([0.01, 0.05, 0.2])
+            cfg.max_aer = rng.choice([0.01, 0.05, 0.2])   # 0 is refused (0 < rate < 1 is demanded)
         if rng.random() < 0.2:
             cfg.max_n = rng.choice([0.0, 0.1, 0.25, 0.5])
     return cfg
+
+
+def no_index_possible(adapters):
+    """at most one anchored 5' and at most one anchored 3' adapter (linked ones are never indexed): AdapterCutter cannot build an index"""
+    pre = sum(1 for _, spec in adapters if "..." not in spec and spec.split("=", 1)[-1].startswith("^"))
+    suf = sum(1 for _, spec in adapters if "..." not in spec and spec.split("=", 1)[-1].split(";")[0].endswith("$"))
+    return pre <= 1 and suf <= 1
+
+
+def tie_case(rng):
+    """adapters of equal length and different kinds (at most one anchored 5' and one anchored 3'), in random order, and reads
+    that contain an exact copy of each where its kind can match: equal scores, equal error counts -- the adapter given first
+    must win, with and without --no-index (no index can be built for these sets)"""
+    L = rng.choice([5, 6, 8, 10])
+    kinds = ["prefix", "suffix"] + rng.sample(["back", "front", "anywhere"], rng.choice([0, 1, 2]))
+    if rng.random() < 0.2:
+        kinds.remove(rng.choice(["prefix", "suffix"]))
+    rng.shuffle(kinds)
+    seqs = {}
+    while len(seqs) < len(kinds):
+        x = U.rand_seq(rng, L, "ACGT")
+        if x not in seqs.values():
+            seqs[kinds[len(seqs)]] = x
+    ads = []
+    for i, k in enumerate(kinds):
+        q = seqs[k]
+        flag, spec = {"prefix": ("-g", "^" + q), "suffix": ("-a", q + "$"), "back": ("-a", q), "front": ("-g", q), "anywhere": ("-b", q)}[k]
+        ads.append((flag, "ad%d=%s" % (i, spec)))
+    cfg = S.Cfg(adapters=tuple(ads), times=rng.choice([1, 1, 2, 3]), action=rng.choice(["trim", "trim", "mask", "lowercase", "none", "retain"]),
+                error_rate=rng.choice([None, 0.0, 0.2]), overlap=rng.choice([None, 3, L]), fasta=rng.random() < 0.3,
+                info_file=rng.random() < 0.5, index=rng.random() < 0.6)
+    if cfg.action == "retain":
+        cfg.times = 1
+    reads = []
+    for i in range(rng.choice([3, 5, 8])):
+        inner = [seqs[k] for k in kinds if k not in ("prefix", "suffix") and rng.random() < 0.7]
+        rng.shuffle(inner)
+        mid = U.rand_seq(rng, rng.choice([0, 3, 7]), "ACGT").join(inner) if inner else U.rand_seq(rng, rng.choice([0, 4, 9]), "ACGT")
+        head = seqs["prefix"] if "prefix" in seqs and rng.random() < 0.8 else U.rand_seq(rng, rng.choice([0, 3]), "ACGT")
+        tail = seqs["suffix"] if "suffix" in seqs and rng.random() < 0.8 else U.rand_seq(rng, rng.choice([0, 3]), "ACGT")
+        seq = head + U.rand_seq(rng, rng.choice([0, 2, 6]), "ACGT") + mid + U.rand_seq(rng, rng.choice([0, 2, 6]), "ACGT") + tail
+        qual = None if cfg.fasta else "".join(chr(33 + rng.randint(2, 40)) for _ in seq)
+        reads.append(("r%d" % i, seq, qual))
+    return cfg, reads
 
 
 def linked_rounds_case(rng):
@@ -712,6 +760,9 @@ def run(ctx, pid):
     for _ in range(n):
         if pid in ("C17", "C20", "C03", "C09") and rng.random() < 0.08:
             cases.append(linked_rounds_case(rng))
+            continue
+        if pid == "C09" and rng.random() < 0.1:
+            cases.append(tie_case(rng))
             continue
         cfg, reads = S.rand_case(rng, FOCUS[pid])
         cases.append((adjust(pid, rng, cfg), reads))
@@ -763,7 +814,7 @@ def run(ctx, pid):
                     shown += 1
                     ctx.violation("correspondence:pipeline " + ent["diffs"][0].split(":")[0], dict(replay_doc(ent, "model and implementation differ"), diffs=ent["diffs"][:4]),
                                   found_input=False)
-    if pid in ("C03", "C04", "C10", "C11", "C15", "C16"):
+    if pid in ("C03", "C04", "C09", "C10", "C11", "C15", "C16"):
         from . import pairprops
 
         pres = pairprops.paired_part(ctx, pid, max(60, n // 3), dist)
